@@ -108,12 +108,10 @@ func (a CommandBasedAuthorizer) evaluate() bool {
 				continue
 			}
 			// guard against regexes that are not anchored to the start and end of the string
-			if regexish[0] != regexStartByte {
-				regexish = regexStartStr + regexish
-			}
-			if regexish[len(regexish)-1] != regexEndByte {
-				regexish = regexish + regexEndStr
-			}
+			// the pattern has to match the entire argument string. Anchoring by looking at the
+			// first and last byte only is wrong for alternations (a|b would become ^a|b$),
+			// so anchor the pattern as a whole
+			regexish = regexStartStr + "(?:" + regexish + ")" + regexEndStr
 			if matched, err := regexp.MatchString(regexish, a.body.Args.CommandArgsNoLE()); err != nil {
 				a.Errorf(a.ctx, "bad regex detected; %v", err)
 				return false
